@@ -1376,6 +1376,9 @@ class Container:
         moles = sum(Unit.convert_from(substance, value, 'U' if substance.is_enzyme() else config.moles_storage_unit,
                                       'mol') for substance, value in source.contents.items())
         volume = Unit.convert_from_storage(source.volume, 'mL')
+        if volume == 0:
+            # (only substances without volume: solids or enzymes under the zero-volume density option)
+            raise ValueError("Source container holds no volume to take a portion of.")
         d_x = mass / volume
         mw_x = mass / moles if moles else float('inf')  # (a source of enzymes only holds no moles)
         m_x = Unit.convert_from_storage(source.contents.get(solute, 0), 'mol') / (volume / 1000)
